@@ -18,7 +18,7 @@ E(c, g) == [c |-> c, g |-> g]
 SeqsUpTo(S, n) == UNION {[1..k -> S] : k \in 0..n}
 
 F0 == [kind |-> "Type1", enc |-> "dict", base |-> "win", diff |-> <<>>, tu |-> <<>>, file |-> FALSE, std |-> FALSE, ent |-> <<>>,
-       fc |-> 1, widths |-> <<1200, 0, 1450>>, wform |-> "direct", lc |-> "consistent", tuform |-> "bfchar", mw |-> -1, fm |-> "m001"]
+       fc |-> 1, widths |-> <<1200, 0, 1450>>, wform |-> "direct", lc |-> "consistent", tuform |-> "bfchar", bname |-> "custom", mw |-> -1, fm |-> "m001"]
 Tu3 == [1..3 -> {"none", "t1", "t2"}]
 TuOne == <<"none", "t1", "none">>
 
@@ -64,6 +64,10 @@ FontsWidth ==
       fc \in {1, 3, 5}, w \in WidthSeqs, mw \in {-1, 500, 555}, fm \in {"m001", "m01", "skew"}, wf \in WForms}
   \cup {[F0 EXCEPT !.kind = k, !.fc = fc, !.widths = w, !.mw = mw, !.lc = lc] :
       k \in {"Type1", "TrueType", "Type3"}, fc \in {1, 3, 5}, w \in WidthSeqs, mw \in {-1, 555}, lc \in LCs}
+  \* bname: the BaseFont name of a font with its OWN Widths / MissingWidth - a subset-tagged standard-14 name
+  \* (ABCDEF+Helvetica) or a near miss (Helvetica-Foo, helvetica) is not one of the standard 14 fonts: the Widths entry wins
+  \cup {[F0 EXCEPT !.kind = k, !.fc = fc, !.widths = w, !.mw = mw, !.bname = bn] :
+      k \in {"Type1", "TrueType"}, fc \in {1, 3, 5}, w \in WidthSeqs, mw \in {-1, 555}, bn \in {"tagstd", "near"}}
   \cup {[F0 EXCEPT !.kind = "Std14", !.enc = eb[1], !.base = eb[2], !.diff = d, !.tu = t] :
       eb \in {<<"dict", "win">>, <<"dict", "absent">>},
       d \in {<<>>, <<I(2), N("gA")>>, <<I(2), N("gBad")>>, <<I(1), N("gB"), N("gA")>>},
